@@ -285,8 +285,9 @@ enum MsgColor {
 
 /// Write `bytes` to `dest` so that a write which fails half-way (full disk, quota, size limit) leaves
 /// `dest` as it was: an absent or regular destination is written next to itself and then moved into
-/// place. Anything else (device, pipe, symbolic link, directory) cannot be replaced that way and is
-/// written directly, as is a destination whose directory does not accept a new file.
+/// place, and so is the regular file behind a symbolic link (the link stays). Anything else (device,
+/// pipe, dangling link, directory) cannot be replaced that way and is written directly, as is a
+/// destination whose directory does not accept a new file.
 fn write_object_file(dest: &Path, bytes: &[u8]) -> std::io::Result<()> {
     let write_to = |path: &Path| -> std::io::Result<()> {
         let mut file = File::create(path)?;
@@ -294,23 +295,25 @@ fn write_object_file(dest: &Path, bytes: &[u8]) -> std::io::Result<()> {
         file.flush()
     };
 
-    let replaceable = match fs::symlink_metadata(dest) {
+    // What a link names is what gets written
+    let resolved = fs::canonicalize(dest);
+    let target = resolved.as_deref().unwrap_or(dest);
+
+    let replaceable = match fs::symlink_metadata(target) {
         Ok(metadata) => metadata.file_type().is_file(),
         Err(err) => err.kind() == std::io::ErrorKind::NotFound,
     };
-    let Some(file_name) = dest.file_name().filter(|_| replaceable) else {
+    if !replaceable || target.file_name().is_none() {
         return write_to(dest);
-    };
+    }
 
-    let mut temp_name = std::ffi::OsString::from(".");
-    temp_name.push(file_name);
-    temp_name.push(format!(".{}.tmp", std::process::id()));
-    let temp = dest.with_file_name(temp_name);
+    // Name of its own, so that it is no longer than the destination's may be
+    let temp = target.with_file_name(format!(".lace-{}.tmp", std::process::id()));
 
     if File::create(&temp).is_err() {
         return write_to(dest);
     }
-    let result = write_to(&temp).and_then(|()| fs::rename(&temp, dest));
+    let result = write_to(&temp).and_then(|()| fs::rename(&temp, target));
     if result.is_err() {
         let _ = fs::remove_file(&temp);
     }
